@@ -172,8 +172,17 @@ Section Names.
     | (k', l) :: d' => if str_eqb k k' then (k', l ++ [v]) :: d' else (k', l) :: aappend d' k v
     end.
 
+  (* keys_of_op: a second spelling of a tag already seen on THIS operation does not append the
+     operation again (fix of F07c); the candidate spelling is still recorded (cand_step) *)
+  Fixpoint dedup_keys_go (seen : list str) (ts : list str) : list str :=
+    match ts with
+    | [] => []
+    | t :: r => if mem_str (tag_key t) seen then dedup_keys_go seen r
+                else t :: dedup_keys_go (tag_key t :: seen) r
+    end.
+  Definition group_tags (o : op) : list str := dedup_keys_go [] (tags_or_default o).
   Definition group_step (d : list (str * list op)) (o : op) : list (str * list op) :=
-    fold_left (fun d t => aappend d (tag_key t) o) (tags_or_default o) d.
+    fold_left (fun d t => aappend d (tag_key t) o) (group_tags o) d.
   Definition group (l : list op) : list (str * list op) := fold_left group_step l [].
 
   Definition cand_step (d : list (str * list str)) (o : op) : list (str * list str) :=
@@ -289,9 +298,6 @@ Section Names.
   (* F07f (the blanket except): no operation is skipped *)
   Definition guard_F07f (st : strategy) (doc : list raw_op) : bool :=
     forallb (parse_op_ok st) (ops doc).
-  (* F07c: no operation carries two tags with the same normalised key *)
-  Definition guard_F07c (l : list op) : bool :=
-    forallb (fun o => nodupb (map tag_key (tags_or_default o))) l.
   (* F07d: every tag's module/attribute name is a Python identifier *)
   Definition all_tags (l : list op) : list str := flat_map tags_or_default l.
   Definition guard_F07d (l : list op) : bool :=
